@@ -447,6 +447,13 @@ func apply(w *sstcp.World, dir int, op opSpec, seed uint64, x, y [][]byte) (t []
 		if k >= len(x[0]) || k >= len(y[0]) {
 			k = min(len(x[0]), len(y[0])) - 1
 		}
+		if !op.Foreign && bytes.Equal(x[0][:k], y[0][:k]) {
+			// the own head happens to equal the other session's head up to the splice point (one
+			// retained salt byte collides with probability 1/256): the result is byte for byte the
+			// other genuine client's handshake/response, which is outside the attacker's domain
+			// (see opSpliceFrame). Harness false alarm found by the thorough tier; excluded here.
+			return nil, "", false
+		}
 		t[0] = append(append([]byte(nil), x[0][:k]...), y[0][k:]...)
 		return t, regionAt(w, dir, x, 0, k), true
 	case opSwapStream:
